@@ -772,6 +772,7 @@ func c13Instances(add func(*Instance), thorough bool) {
 			add(&Instance{Func: "VerifC13Frozen", Tier: b.tier, Note: b.name, Params: with(base, "slack", slack, "view", 0)})
 		}
 		add(&Instance{Func: "VerifC13Frozen", Tier: b.tier, Params: with(base, "slack", 0, "view", 1)})
+		add(&Instance{Func: "VerifC13Frozen", Tier: b.tier, Params: with(base, "slack", -1, "view", 0, "arena", 1)})
 	}
 }
 
@@ -1239,6 +1240,7 @@ func c18Instances(add func(*Instance), thorough bool) {
 				continue
 			}
 			add(&Instance{Pkg: "roaring64", Func: "VerifC18RoundTrip", Params: with(sh, "rd", rd, "wr", rd, "tail", 2, "xm", -1)})
+			add(&Instance{Pkg: "roaring64", Func: "VerifC18RoundTrip", Params: with(sh, "rd", rd, "wr", rd, "tail", 0, "xm", -1, "reuse", 1)})
 			if sh["anb"] > 0 {
 				add(&Instance{Pkg: "roaring64", Func: "VerifC18RoundTrip", Params: with(sh, "rd", rd, "wr", 0, "prefix", 1, "xm", -1)})
 			}
